@@ -446,8 +446,176 @@ pub fn corpus(prop: &str, tier: Tier, seed: u64) -> Vec<(usize, Layout)> {
             p.overlap = false;
             v.extend(random(&p, seed, 3, nrand / 4));
         }
+        "C06" => {
+            // every base width, every default form; half of them with fields
+            let words = sample_choices(seed, 6, 140 * 5, 320);
+            let mut k = 0;
+            for b in 1..=128u32 {
+                for form in 0..5 {
+                    let native = is_native_width(b);
+                    if (form == 3 || form == 4) && !native {
+                        // named constants: native bases only, except storage-class boundaries
+                        if ![1u32, 7, 9, 15, 17, 31, 33, 63, 65, 127].contains(&b) {
+                            continue;
+                        }
+                    }
+                    if tier == Tier::Quick && !native && form == 2 && b % 3 != 0 {
+                        continue;
+                    }
+                    let mut src = Src::new(&words[k % words.len()]);
+                    k += 1;
+                    let mut p = Profile::general();
+                    p.default = DefaultMode::Never;
+                    p.access = AccessMode::Mixed;
+                    let mut l = if k % 2 == 0 { build_layout_on(&p, &mut src, b) } else { lay(b, vec![]) };
+                    let m = mask(b);
+                    let val = match k % 5 {
+                        0 => m,
+                        1 => 1u128 << (b - 1),
+                        2 => src.u128() & m & !rules::writable_mask(&l),
+                        _ => src.u128() & m,
+                    };
+                    match form {
+                        0 => {}
+                        1 | 2 => {
+                            l.default = Some(DefaultDecl { value: val, named_const: false, radix: [10u8, 16, 2][k % 3] });
+                            l.default_colon = form == 2;
+                        }
+                        _ => {
+                            l.default = Some(DefaultDecl { value: val, named_const: true, radix: 16 });
+                            l.default_colon = form == 4;
+                        }
+                    }
+                    v.push(l);
+                }
+            }
+        }
+        "C11" => {
+            let mut p = prof([3, 6, 4, 2, 1, 1, 1], [5, 2, 2, 1]);
+            p.base = BaseMode::ArbOnly;
+            p.overlap = true;
+            p.max_fields = 6;
+            v.extend(random(&p, seed, 1, nrand / 2));
+            p.overlap = false;
+            p.need_builder = true;
+            v.extend(random(&p, seed, 2, nrand / 2));
+            // systematic: a field ending on bit N-1 for every storage-class boundary
+            for b in [1u32, 2, 7, 9, 15, 17, 24, 31, 33, 63, 65, 127] {
+                for w in [1u32, b.min(8), b] {
+                    if w > b || (w == 128) {
+                        continue;
+                    }
+                    let mut fields = vec![fld("t", b - w, w, uty(w), Access::RW)];
+                    if b - w >= 1 {
+                        fields.push(fld("lo", 0, (b - w).min(64), uty((b - w).min(64)), Access::RW));
+                    }
+                    v.push(lay(b, fields));
+                }
+            }
+        }
+        "C13" => {
+            let mut p = prof([3, 6, 4, 2, 2, 2, 1], [5, 3, 2, 1]);
+            p.need_builder = true;
+            p.access = AccessMode::Mixed;
+            p.max_fields = 6;
+            v.extend(random(&p, seed, 1, nrand / 2));
+            p.max_array = 128;
+            p.default = DefaultMode::Always;
+            v.extend(random(&p, seed, 2, nrand / 4));
+            p.default = DefaultMode::Never;
+            p.access = AccessMode::AllRW;
+            v.extend(random(&p, seed, 3, nrand / 4));
+            // systematic: arrays of one-bit elements covering whole native bases, no default
+            for b in NATIVE {
+                let mut a = fld("bits", 0, 1, FieldTy::Bool, Access::RW);
+                a.array = Some(ArrayDecl { count: b, stride: None, colon: false });
+                v.push(lay(b, vec![a]));
+                let mut a = fld("nib", 0, 4, uty(4), Access::W);
+                a.array = Some(ArrayDecl { count: b / 4, stride: None, colon: false });
+                v.push(lay(b, vec![a]));
+            }
+            // complete coverage of arbitrary bases without default
+            for b in [1u32, 7, 9, 17, 33, 65, 127] {
+                v.push(lay(b, vec![fld("all", 0, b, uty(b), Access::RW)]));
+            }
+        }
+        "C16" => {
+            v.extend(sys_scalars(Tier::Quick, Access::RW).into_iter().filter(|l| l.fields.iter().any(|f| f.highest_bit() + 1 == l.base_bits)));
+            v.extend(sys_arrays(Tier::Quick).into_iter().enumerate().filter(|(k, _)| k % 4 == 0).map(|(_, l)| l));
+            v.extend(sys_lists(Tier::Quick).into_iter().enumerate().filter(|(k, _)| k % 4 == 0).map(|(_, l)| l));
+            v.extend(sys_signed(Tier::Quick).into_iter().enumerate().filter(|(k, _)| k % 3 == 0).map(|(_, l)| l));
+            let mut p = prof([3, 6, 4, 3, 1, 1, 1], [5, 3, 2, 1]);
+            p.max_fields = 6;
+            v.extend(random(&p, seed, 1, nrand / 2));
+            p.overlap = true;
+            v.extend(random(&p, seed, 2, nrand / 2));
+        }
+        "C19" => {
+            let mut p = prof([3, 5, 3, 3, 2, 2, 2], [5, 0, 2, 0]);
+            p.debug = true;
+            p.max_array = 0;
+            p.max_fields = 12;
+            p.overlap = true;
+            p.access = AccessMode::AllRW;
+            v.extend(random(&p, seed, 1, nrand / 2));
+            p.access = AccessMode::AllR;
+            p.overlap = false;
+            v.extend(random(&p, seed, 2, nrand / 2));
+        }
         _ => {
             v.extend(random(&Profile::general(), seed, 1, nrand));
+        }
+    }
+    v.into_iter().enumerate().collect()
+}
+
+/// bitenum corpus for C07: every N in 1..=64, exhaustive / non-exhaustive / conditional
+pub fn enum_corpus(tier: Tier, seed: u64) -> Vec<(usize, EnumDecl)> {
+    let mut v: Vec<EnumDecl> = Vec::new();
+    let max_exh = tier.pick(8u32, 10u32);
+    let reps = tier.pick(3usize, 24usize);
+    let words = sample_choices(seed, 7, 64 * (reps + 1), 400);
+    let mut k = 0;
+    for n in 1..=64u32 {
+        if n <= max_exh {
+            let mut src = Src::new(&words[k]);
+            k += 1;
+            v.push(gen_enum(&mut src, "E", n, true));
+        }
+        for _ in 0..reps {
+            let mut src = Src::new(&words[k % words.len()]);
+            k += 1;
+            v.push(gen_enum(&mut src, "E", n, false));
+        }
+        // systematic: single variant at 0 / at max; all but one value for small N
+        let m = mask(n);
+        for d in [0u128, m] {
+            v.push(EnumDecl {
+                name: "E".into(),
+                bits: n,
+                variants: vec![Variant { name: "Only".into(), disc: Disc::Lit { value: d, radix: 16, underscore: true }, cfg: Cfg::None }],
+                exhaustive: if d == 0 { Exh::False } else { Exh::Omitted },
+                colon: false,
+                qualified: false,
+            });
+        }
+        if n <= 6 {
+            for missing in [0u128, m, m / 2] {
+                let variants = (0..=m)
+                    .filter(|d| *d != missing)
+                    .map(|d| Variant { name: format!("V{}", d), disc: Disc::Lit { value: d, radix: 10, underscore: false }, cfg: Cfg::None })
+                    .collect::<Vec<_>>();
+                if variants.is_empty() {
+                    continue;
+                }
+                v.push(EnumDecl { name: "E".into(), bits: n, variants, exhaustive: Exh::False, colon: false, qualified: false });
+            }
+            // conditional with two variants sharing a discriminant under complementary cfgs, and all values listed
+            let mut variants: Vec<Variant> = (0..=m)
+                .map(|d| Variant { name: format!("V{}", d), disc: Disc::Lit { value: d, radix: 10, underscore: false }, cfg: if d % 2 == 1 { Cfg::Always } else { Cfg::None } })
+                .collect();
+            variants.push(Variant { name: "Off".into(), disc: Disc::Lit { value: m, radix: 10, underscore: false }, cfg: Cfg::Never });
+            v.push(EnumDecl { name: "E".into(), bits: n, variants, exhaustive: Exh::Conditional, colon: false, qualified: false });
         }
     }
     v.into_iter().enumerate().collect()
